@@ -257,11 +257,12 @@ class History(object):
         i = find_entry(self.ents, shx.plan)
         if i is None:
             return False
-        n = self.rng.randint(1, 60)
-        shx.plan.set('PLAN %d' % n)
+        n = self.rng.choice([self.rng.randint(1, 60), self.rng.randint(1, 60), -self.rng.randint(1, 60), 1200, 2000])
+        extra = self.rng.choice([[], [], ['1.5'], ['0', '1.5'], ['-1', '0'], ['0', '0'], ['1.34', '1.1']])       # PLAN npeaks d1 d2, zeros included
+        shx.plan.set(' '.join(['PLAN', str(n)] + extra))
         self.mops.append(('upd', shx.plan.index, str(shx.plan).split('\n')))
-        self.ents[i].lines = [['PLAN', str(n)]]
-        self.log.append(('plan', n))
+        self.ents[i].lines = [['PLAN', str(n)] + extra]
+        self.log.append(('plan', n, extra))
         return True
 
     def op_cycles(self):
@@ -323,6 +324,20 @@ class History(object):
                     self.refine._acta_card = None
             except Exception:
                 return False
+        if self.acta_store is None and shx.acta is not None and self.rng.random() < 0.4:
+            # a complete remove / restore cycle on the same helper object (ACTA is at its place again afterwards), possibly followed by the ordinary step
+            i0 = find_entry(self.ents, shx.acta)
+            ui0 = find_entry(self.ents, shx.unit)
+            if i0 is not None and ui0 is not None:
+                store = self.ents[i0].lines
+                self.mops.append(('del', shx.acta.index))
+                self.refine.remove_acta_card(shx.acta)
+                del self.ents[i0]
+                ui0 = find_entry(self.ents, shx.unit)
+                self.refine.restore_acta_card()
+                self.mops.append(('ins', shx.acta.index, str(shx.acta).split('\n'), False))
+                self.ents.insert(ui0 + 1, Entry(shx.acta, store, False, 'ACTA'))
+                self.log.append(('remove_acta + restore_acta',))
         if self.acta_store is None:
             if shx.acta is None:
                 return False
